@@ -1068,6 +1068,16 @@ class Evaluator:
             return self._new(CLASS_OF[fname[3:]], pos, kws)
         if fname.startswith("cls:"):
             return self._new(fname[4:], pos, kws)
+        if fname == "isinstance" and len(pos) == 2 and not star and not kws:
+            # the order of the accepted types is immaterial: canonical order
+            h2 = c.head_of(pos[1])
+            if h2 and h2[0] == "tuple":
+                el = sorted(c.args_of(pos[1]), key=lambda r: r.key())
+                uniq = []
+                for x in el:
+                    if not any(c.eq(x, u) for u in uniq):
+                        uniq.append(x)
+                pos = [pos[0], c.mk(h2, uniq) if len(h2) == 1 else pos[1]]
         if not star and not kws:
             if fname in ARITH_FUNCS and len(pos) in (1, 2):
                 op = ARITH_FUNCS[fname]
